@@ -1,6 +1,7 @@
 package driver
 
 import (
+	"time"
 	"bytes"
 	"encoding/json"
 	"errors"
@@ -366,6 +367,7 @@ type delivery struct {
 	chunky   bool
 	writerAt int // >0: the writer fails after this many bytes (the answer itself is not asserted)
 	keepOpen bool
+	slow     bool // the client takes minutes (of simulated time) to deliver the request
 }
 
 func engineJSON(rc *RunCtx) *Outcome {
@@ -423,6 +425,11 @@ func engineJSON(rc *RunCtx) *Outcome {
 		// the client sends the complete document and waits for the answer before closing its end
 		ds = append(ds, delivery{what: "complete-stream-kept-open", data: doc, errAt: -1, chunky: true, keepOpen: true})
 	}
+	if !huge && w.Bool(40) {
+		// a slow producer: pauses of up to several minutes between the chunks (fake clock): how long the
+		// client takes to send a request is not an argument of the run
+		ds = append(ds, delivery{what: "complete-slow-client", data: doc, errAt: -1, chunky: true, slow: true})
+	}
 	ds = append(ds, delivery{what: "trailing-garbage", data: append(append([]byte{}, doc...), []byte("\n}{ garbage 123")...), errAt: -1, chunky: true})
 	for cut := 0; cut < len(doc) && !huge; cut++ {
 		ds = append(ds, delivery{what: fmt.Sprintf("truncated@%d", cut), data: doc[:cut], errAt: -1})
@@ -475,6 +482,16 @@ func engineJSON(rc *RunCtx) *Outcome {
 			}
 			if d.chunky {
 				rd.chunks = func() int { return 1 + rc.S.Choose(9)*rc.S.Choose(9) }
+			}
+			if d.slow {
+				pauses := 0
+				rd.chunks = func() int {
+					if pauses < 6 {
+						pauses++
+						time.Sleep(time.Duration(1+rc.S.Choose(120)) * time.Second)
+					}
+					return 1 + rc.S.Choose(9)*rc.S.Choose(9)
+				}
 			}
 			wr := &recordingWriter{failAt: -1, answered: answered}
 			if d.writerAt > 0 {
@@ -547,7 +564,7 @@ func engineJSON(rc *RunCtx) *Outcome {
 				}
 				continue
 			}
-			if d.what != "complete" && d.what != "trailing-garbage" && d.what != "complete-stream-kept-open" {
+			if d.what != "complete" && d.what != "trailing-garbage" && d.what != "complete-stream-kept-open" && d.what != "complete-slow-client" {
 				// a byte fault that left a decodable request: robustness is asserted (one
 				// document, no escape); equivalence is asserted on the undamaged document
 				continue
